@@ -76,6 +76,9 @@ C04State(j) ==
        /\ (sd = "none" /\ ~Rec[j].post.eo /\ ~NoAdjacentText(P)) => Report(j, "C04", <<"adjacent-text">>)
        /\ Rec[j].post.rs # <<>> => Report(j, "C04", <<"parentless-node-has-siblings", Rec[j].post.rs>>)
        /\ Rec[j].post.bad # "" => Report(j, "C04", <<"unprojectable", Rec[j].post.bad>>)
+       /\ (\E q \in 1..Len(Rec[j].post.xid) : Rec[j].post.xid[q][4] \/ Rec[j].post.xid[q][3] = 0
+                                                \/ (Rec[j].post.xid[q][3] <= Len(P) /\ P[Rec[j].post.xid[q][3]].k = "rm"))
+             => Report(j, "C04", <<"xml_id_node hands out a removed node", Rec[j].post.xid>>)
 
 C04Step(j) ==
     LET N == PreOf(j).n  P == Rec[j].post.n
